@@ -46,8 +46,10 @@ func (g *c10gen) body(d int, allowSuper bool) []bnode {
 		case x == 3 && allowSuper:
 			out = append(out, bnode{k: "super"})
 		case x == 4 && d > 0:
+			// a block first defined here, inside another block's body: its own Super is empty at this
+			// level, whatever the enclosing block's Super is
 			name := g.freshName()
-			b := g.body(d-1, false)
+			b := g.body(d-1, g.r.Chance(1, 2))
 			g.define(name, b)
 			out = append(out, bnode{k: "block", name: name})
 		case x == 5 && d > 0:
@@ -129,7 +131,7 @@ func suiteC10(cfg Config, res *Result) {
 		for j := 0; j < nb; j++ {
 			doc = append(doc, bnode{k: "text", s: rng.Pick([]string{"[", "|", "-"})})
 			name := g.freshName()
-			b := g.body(2, false)
+			b := g.body(2, rng.Chance(1, 4))
 			g.define(name, b)
 			blk := bnode{k: "block", name: name}
 			if rng.Chance(1, 4) {
